@@ -44,6 +44,7 @@ type headCase struct {
 		Head string `json:"head"`
 		By   string `json:"by"`
 	} `json:"out"`
+	nested bool // the head is signed while another head is being made (every third case)
 }
 
 func headCid(name string) cid.Cid {
@@ -79,7 +80,12 @@ func craft(hc *headCase, kt string) (*head.SignedHead, error) {
 	o, h2, t2 := other(idsAll, c.Pub), other(heads, c.Head), other(topics, c.Topic)
 	pk := ids.KeyT(c.Pub, kt)
 	ok := ids.KeyT(o, kt)
-	sh, err := head.NewSignedHead(headCid(c.Head), topicOf(c.Topic), pk)
+	signing := pk
+	if hc.nested {
+		// another head (other CID, other topic, other identity) is signed between encoding this head's payload and signing it
+		signing = ids.Nest(pk, func() { head.NewSignedHead(headCid(h2), topicOf(t2), ok) })
+	}
+	sh, err := head.NewSignedHead(headCid(c.Head), topicOf(c.Topic), signing)
 	if err != nil {
 		return nil, err
 	}
@@ -238,6 +244,7 @@ func RunC03(args []string) *rep.Report {
 			return err
 		}
 		idx++
+		hc.nested = idx%3 == 0
 		r.Eval(hc.Case.Alt != "none")
 		if idx%50 == 1 {
 			r.Sample(hc)
